@@ -159,7 +159,7 @@ def run(tier, seed):
         "violations": res["violations"],
         "assumptions": [
             "equality of relations is the library's dataclass equality; identity is Python object identity",
-            "content is evaluated through the real Processor; SQL materializations above unprocessed transfers (C07 known finding) are skipped for content and counted",
+            "content is evaluated through the real Processor",
         ],
     }
 
